@@ -113,6 +113,17 @@ def toInt64 : F64 → Int
     else (if t < 2^63 then (t : Int) else -(2^63 : Int))
   | _ => -(2^63 : Int)
 
+/-- integer part (toward zero) of a float, brought into `[lo, hi]`: `hi` / `lo` for everything beyond (also ±Inf), the
+    integer nearest to 0 in the interval for NaN. What `truncate` of characteristic.go computes (F53 repair) — unlike
+    `uint64(x)` / `int64(x)` above, the same on every platform. -/
+def truncSat (lo hi : Int) : F64 → Int
+  | .fin neg m e =>
+    let t : Nat := if e ≥ 0 then m <<< e.toNat else m >>> (-e).toNat
+    let i : Int := if neg then -(t : Int) else (t : Int)
+    if i > hi then hi else if i < lo then lo else i
+  | .inf neg => if neg then lo else hi
+  | .nan => if (0 : Int) > hi then hi else if (0 : Int) < lo then lo else 0
+
 -- shortest-digits formatting ---------------------------------------------------------------------
 
 /-- `m·2^e` as a fraction -/
